@@ -504,6 +504,64 @@ where
     rep.sample(json!({"monitor": mon, "sampler": "HMC", "ctx": ctxj}));
 }
 
+/// The progress-reporting entry point leaves the sampler where its draws ended, like `run`: twins
+/// A (run_progress(a, d)) and B (run(a + 1, d): the same a + d transitions) must answer a
+/// following run identically.
+fn nuts_progress_then_run_case(rep: &mut Report, case: u64, g: &mut Sm64) {
+    let mon = "real";
+    let sig = "NUTS::run_progress followed by run";
+    let n_chains = g.range(2, 4);
+    let dim = g.range(1, 3);
+    let seed = g.next_u64() >> 2;
+    // (no warm-ups of a handful of transitions: their wild early step sizes make trajectories of
+    // millions of steps, which is the sampler's business, not this check's)
+    let (a, d) = (g.range(4, 8), if g.bool() { 0 } else { g.range(20, 30) });
+    let (b, d2) = (g.range(1, 6), 0usize);
+    let inits: Vec<Vec<f64>> = (0..n_chains).map(|_| (0..dim).map(|_| g.normal() * 0.2).collect()).collect();
+    // (a narrow target: a sampler that lost its adapted step size shows at once)
+    let target = DiagGauss::new((0..dim).map(|i| 300.0 + i as f64 * 100.0).collect(), vec![0.0; dim]);
+    let delta = g.uniform(0.6, 0.9);
+    let ctxj = json!({"n_chains": n_chains, "dim": dim, "first": [a, d], "second": [b, d2], "seed": seed, "delta": delta});
+    let r = guard(|| {
+        let mut sa = NUTS::<f64, B64, DiagGauss>::new(target.clone(), inits.clone(), delta).set_seed(seed);
+        let mut sb = NUTS::<f64, B64, DiagGauss>::new(target.clone(), inits.clone(), delta).set_seed(seed);
+        reset_budget(1 << 17);
+        let pa = tensor3_bits(&sa.run_progress(a, d).unwrap().0);
+        reset_budget(1 << 17);
+        let pb = tensor3_bits(&sb.run(a + 1, d));
+        reset_budget(1 << 17);
+        let qa = tensor3_bits(&sa.run(b, d2));
+        let qb = tensor3_bits(&sb.run(b, d2));
+        reset_budget(u64::MAX);
+        (pa, pb, qa, qb)
+    });
+    rep.evals(4);
+    match r {
+        Err(m) => {
+            reset_budget(u64::MAX);
+            if m.contains(BUDGET_MSG) {
+                rep.inconclusive("target-evaluation budget exhausted in the second run: trajectories too long to monitor");
+            } else {
+                rep.violation(&format!("{sig} panic"), mon, case, json!({"panic": m, "ctx": ctxj}));
+            }
+        }
+        Ok((pa, pb, qa, qb)) => {
+            let shifted_ok = pa.0 == [n_chains, a, dim] && (0..n_chains).all(|c| (0..a).all(|k| (0..dim).all(|j| pa.1[(c * a + k) * dim + j] == pb.1[(c * (a + 1) + k + 1) * dim + j])));
+            if !shifted_ok {
+                rep.violation(&format!("{sig}: run_progress draws are not run's shifted by one"), mon, case, json!({"ctx": ctxj}));
+                return;
+            }
+            if qa != qb {
+                rep.violation(&format!("{sig}: the following run differs from the one after an equivalent run (sampler not left where its draws ended)"), mon, case, json!({"ctx": ctxj}));
+                return;
+            }
+            rep.held();
+            rep.count("nuts_run_progress_then_run_histories");
+            rep.distinct(("nuts-progress", n_chains, dim, a, d, b, d2));
+        }
+    }
+}
+
 fn nuts_case(_ctx: &Ctx, rep: &mut Report, case: u64, g: &mut Sm64) {
     let mon = "real";
     let sig = "NUTS::run";
@@ -520,10 +578,6 @@ fn nuts_case(_ctx: &Ctx, rep: &mut Report, case: u64, g: &mut Sm64) {
     let r = guard(|| {
         let mut multi = NUTS::<f64, B64, DiagGauss>::new(target.clone(), inits.clone(), delta).set_seed(seed);
         let out = tensor3_bits(&multi.run(n_collect, n_discard));
-        // the runner's second run must again equal what its chains do individually
-        reset_budget(1 << 18);
-        let out2 = tensor3_bits(&multi.run(n_collect2, n_discard2));
-        reset_budget(u64::MAX);
         // per-chain twins, traced
         let mut per_chain = vec![];
         for (i, init) in inits.iter().enumerate() {
@@ -548,6 +602,10 @@ fn nuts_case(_ctx: &Ctx, rep: &mut Report, case: u64, g: &mut Sm64) {
             let rows2: Vec<f64> = t2.to_data().iter::<f64>().collect();
             per_chain.push((dims, rows, events, m, pos, rows2, events2, ch.verif_adapt_state().0));
         }
+        // the runner's second run must again equal what its chains do individually. (It runs on
+        // worker threads, which the evaluation budget of this thread does not reach; the identically
+        // seeded twins above have just shown that this very work fits into the budget.)
+        let out2 = tensor3_bits(&multi.run(n_collect2, n_discard2));
         (out, out2, per_chain)
     });
     rep.evals(1 + n_chains as u64);
@@ -671,6 +729,10 @@ pub fn run(ctx: &Ctx, rep: &mut Report) {
             },
             _ => nuts_case(ctx, rep, c, &mut g),
         }
+    }
+    for c in ctx.case_ids("progress", 8, 400) {
+        let mut g = ctx.rng("progress", c);
+        nuts_progress_then_run_case(rep, c, &mut g);
     }
     let _ = std::marker::PhantomData::<B32>;
 }
